@@ -504,7 +504,16 @@ def sat_solve(F, cmd=None, sameas=None, verbose=0):
         if not some_solver_installed(solvers=[solver]):
             continue
         else:
-            return s_func(F, solver_cmd, verbose=verbose)
+            (result, witness) = s_func(F, solver_cmd, verbose=verbose)
+            if result and [abs(l) for l in witness] != list(
+                    range(1, F.number_of_variables() + 1)):
+                # no model, or just a part of it (e.g. the solver was
+                # killed while printing it): nothing we can return as
+                # a satisfying assignment
+                raise RuntimeError(
+                    "Error during SAT solver call: {}.\n".format(solver_cmd)
+                    + "The solver gave no complete satisfying assignment.")
+            return (result, witness)
 
     # no solver was available.
     if len(solver_cmds) == 1:
